@@ -453,6 +453,7 @@ func TestC12_P_HistoryFaults(t *testing.T) {
 		}
 		n := int64(len(fc.Data))
 		// replay returns the number of loads and a description of the first deviation, if any
+		retryAfterFault := false // transient faults only: the step that met the fault is continued (the rest of its bytes is read) and the history goes on
 		replay := func() (string, error) {
 			ls := fc.St.LinkSystem()
 			rn, err := loadReified(ls, fc.Root, "unixfs")
@@ -487,6 +488,13 @@ func TestC12_P_HistoryFaults(t *testing.T) {
 				if !bytes.Equal(buf[:k], fc.Data[sp.a:sp.a+int64(k)]) {
 					return fmt.Sprintf("step %d: read at %d returned %d WRONG bytes %x (want %x), err=%v", i, sp.a, k, buf[:k], fc.Data[sp.a:sp.a+int64(k)], err), nil
 				}
+				if err != nil && isInjected(err) && retryAfterFault {
+					k2, err2 := io.ReadFull(rs, buf[k:])
+					if err2 != nil || !bytes.Equal(buf, fc.Data[sp.a:sp.b]) {
+						return fmt.Sprintf("step %d: read [%d,%d) met the transient fault after %d bytes; the retry on the same reader delivered %d more bytes, err=%v, giving %x (want %x)", i, sp.a, sp.b, k, k2, err2, buf[:k+k2], fc.Data[sp.a:sp.b]), nil
+					}
+					err = nil
+				}
 				if err != nil {
 					if isInjected(err) {
 						return "", nil
@@ -514,6 +522,19 @@ func TestC12_P_HistoryFaults(t *testing.T) {
 			}
 			if dev != "" {
 				t.Fatalf("C12 [%s] history %v with load #%d of %d failing: %s", fc.Desc, steps, k, loads, dev)
+			}
+			// the same, but the caller retries the read that failed and carries on with the history
+			fc.St.ResetLogs()
+			fc.St.FailReadAt = k
+			retryAfterFault = true
+			must(t, "history under transient fault, with retry", func() { dev, err = replay() })
+			retryAfterFault = false
+			fc.St.FailReadAt = 0
+			if err != nil {
+				t.Fatal(err)
+			}
+			if dev != "" {
+				t.Fatalf("C12 [%s] history %v with load #%d of %d failing once and the failed read retried: %s", fc.Desc, steps, k, loads, dev)
 			}
 			ev.Case(fmt.Sprintf("%s d=%d steps=%d transient", fc.Writer, fc.Tree.Depth(), len(steps)), true, "fault:transient")
 		}
